@@ -1313,7 +1313,7 @@ func runC18(c *core.Ctx) {
 			}
 		}
 		var write *ssa.Call
-		for _, ci := range core.Calls(put) {
+		for _, ci := range core.CallsR(put) {
 			if cv := core.CallValue(ci); cv != nil && core.IsMethodNamed(ci, "Write") && psCall != nil && extractOf(core.Receiver(ci), psCall, 0) {
 				write = cv
 			}
@@ -1333,11 +1333,11 @@ func runC18(c *core.Ctx) {
 			isRet := func(in ssa.Instruction) bool { _, ok := in.(*ssa.Return); return ok }
 			path, reached := core.Reach(put, write, isRet, nilEdges, isAbort)
 			c.Check(!reached && len(nilEdges) > 0, key+"#abort-on-write-error", p.Pos(write.Pos()), "a failed Write aborts the staging file before returning", "after a failed Write a return is reachable without aborting (a partial staging file could later be committed or leak)", p.Witness(path)...)
-			for _, ci := range core.Calls(put) {
+			for _, ci := range core.CallsR(put) {
 				if ci.Common().IsInvoke() || !extractOf(ci.Common().Value, psCall, 1) || isAbort(ci) {
 					continue
 				}
-				prm, ok := core.Strip(ci.Common().Args[0]).(*ssa.Parameter)
+				prm, ok := core.RegionOf(put).Canon(ci.Common().Args[0]).(*ssa.Parameter)
 				c.Check(ok && prm.Parent() == put, key+"#commit-key", p.Pos(ci.Pos()), "commits under the caller's key", "commits under something other than the key parameter")
 				// commit unreachable after a failed write
 				path, reached := core.Reach(put, write, isTarget(ci), nilEdges, nil)
@@ -1375,7 +1375,7 @@ func runC18(c *core.Ctx) {
 				continue
 			}
 			var writes []*ssa.Call
-			for _, cj := range core.Calls(fn) {
+			for _, cj := range core.CallsR(fn) {
 				if cv := core.CallValue(cj); cv != nil && core.IsMethodNamed(cj, "Write") && extractOf(core.Receiver(cj), psv, 0) {
 					writes = append(writes, cv)
 				}
@@ -1383,7 +1383,7 @@ func runC18(c *core.Ctx) {
 			if len(writes) == 0 {
 				continue
 			}
-			for _, cj := range core.Calls(fn) {
+			for _, cj := range core.CallsR(fn) {
 				if cj.Common().IsInvoke() || cj.Common().StaticCallee() != nil || !extractOf(cj.Common().Value, psv, 1) {
 					continue
 				}
